@@ -92,10 +92,30 @@ def tap_has_result_line(t: dict) -> bool:
     return any(x in ('ok', 'notok', 'todo') for x in (t['tap'] or '').split(','))
 
 
+def xml_mode(t: dict, it: int) -> str:
+    """(gtest) what the program does to the XML report in this iteration."""
+    return _pick((t.get('xml') or 'none').split('/'), it)
+
+
+def rust_shape(t: dict) -> str:
+    """(rust) the scripted libtest lines as a whole; which names carry the FAILED lines."""
+    items = [x.partition('.') for x in (t.get('rust') or [])]
+    failed = [k for k, _, r in items if r == 'fail']
+    if failed:
+        return 'fail-on-decorated-name-only' if all(k in ('p', 'dp', 'dc', 'dn') for k in failed) else 'fail-on-plain-name'
+    if not items:
+        return 'no-tests'
+    if all(r.startswith('ign') for _, _, r in items):
+        return 'all-ignored'
+    return 'all-ok-some-decorated' if any(k in ('p', 'dp', 'dc', 'dn') for k, _, _ in items) else 'all-ok-plain'
+
+
 def expected_results(t: dict, it: int) -> T.Set[str]:
     """Acceptable classifications of a run that ran to completion (no timeout, no interrupt)."""
     rc = exit_of(t, it)
-    if t['protocol'] == 'exitcode':
+    if t['protocol'] in ('exitcode', 'gtest'):
+        # gtest: Unit-tests.md only says that the program's XML report is folded into the junit log - the
+        # classification is the exit-status rule of the property, whatever the report looks like
         if rc == 0:
             base = 'OK'
         elif rc == 77:
@@ -105,6 +125,16 @@ def expected_results(t: dict, it: int) -> T.Set[str]:
         else:
             base = 'FAIL'        # any other status, a death by signal included
         bases = {base}
+    elif t['protocol'] == 'rust':
+        # the documents only name the protocol ("for native rust tests").  The generator scripts what libtest itself
+        # produces: a FAILED line for some test <=> exit status 101, so lines and exit-status rule agree on good/bad;
+        # FAIL or ERROR is not fixed, nor is OK or SKIP for a binary that ran nothing
+        shape = rust_shape(t)
+        if shape.startswith('fail'):
+            return {'FAIL', 'ERROR', 'EXPECTEDFAIL'} if t['should_fail'] else {'FAIL', 'ERROR'}
+        if shape in ('no-tests', 'all-ignored'):
+            return {'SKIP', 'UNEXPECTEDPASS'} if t['should_fail'] else {'SKIP', 'OK'}
+        bases = {'OK'}
     else:
         items = (t['tap'] or '').split(',')
         if rc != 0:
@@ -141,6 +171,13 @@ def rc_class(t: dict, it: int) -> str:
     k = 'signal' if rc < 0 else {0: 'exit0', 77: 'exit77', 99: 'exit99'}.get(rc, 'exitother')
     if t['protocol'] == 'tap':
         k = 'tap-' + (t['tap'] or 'none').replace(',', '+') + '-' + k
+    elif t['protocol'] == 'gtest':
+        m = xml_mode(t, it)
+        if m == 'none' and '/' in (t.get('xml') or ''):
+            m = 'left-by-other-iteration'
+        k = 'gtest-report-' + m + '-' + k
+    elif t['protocol'] == 'rust':
+        k = 'rust-' + rust_shape(t) + '-' + k
     if t['should_fail']:
         k += '-should_fail'
     return k
@@ -506,6 +543,9 @@ def check_run(proj: dict, inv: dict, evs: T.Sequence[dict], testlog: T.Optional[
                 if res == 'TIMEOUT':
                     cnt('cov:result_TIMEOUT')
                     cnt('cov:leaky_victim_TIMEOUT' if leaky else 'cov:victim_term_' + t['term'])
+                    if t['protocol'] == 'gtest':
+                        cnt('cov:gtest_victim_TIMEOUT_report_' +
+                            ('half-written' if xml_mode(t, it) in ('cut', 'full', 'lie') else 'absent'))
                     if leaky and t.get('leakterm') == 'ignore':
                         cnt('cov:leaky_sigterm_ignoring_helper_probe')
                     if finished:
@@ -554,6 +594,24 @@ def check_run(proj: dict, inv: dict, evs: T.Sequence[dict], testlog: T.Optional[
                 cnt('cov:tap_description_with_hash_' + ('failing' if 'notok' in (t['tap'] or '') else 'passing'))
             if exit_of(t, it) < 0:
                 cnt('cov:death_by_signal_' + t['protocol'])
+            if t['protocol'] == 'gtest':
+                m = xml_mode(t, it)
+                cnt('cov:gtest_report_' + m)
+                ek = rc_class(dict(t, protocol='exitcode', should_fail=False), it)
+                if m in ('cut', 'empty', 'garbage'):
+                    cnt('cov:gtest_unreadable_report_' + ek)
+                elif m == 'lie':
+                    cnt('cov:gtest_contradicting_report_' + ek)
+                if t['should_fail'] and m in ('cut', 'empty', 'garbage'):
+                    cnt('cov:gtest_unreadable_report_should_fail')
+            elif t['protocol'] == 'rust':
+                cnt('cov:rust_' + rust_shape(t) + ('_should_fail' if t['should_fail'] else ''))
+                nsub = next((h.get('nsub') for h in h_result if h.get('name') == tid and h.get('it') == it), None)
+                if nsub is not None and run is not None and run['ended']:
+                    cnt('monitor:rust_subtests_seen')
+                    if nsub != len(t.get('rust') or []):
+                        # not part of the property (subtests are not in the totals): diagnostics only
+                        cnt('diag:rust_subtests_differ_from_result_lines')
             if t['protocol'] == 'tap' and exit_of(t, it) != 0 and not tap_has_result_line(t):
                 cnt('cov:tap_no_result_line_but_bad_exit')
             if run is not None and run['ended'] and e.get('returncode') != exit_of(t, it):
